@@ -428,12 +428,15 @@ Uq ==
                     K == 1..Len(e.out)
                     illegal == {j \in K : ~UqPre(e, o, j)}
                     bad == {j \in K : e.out[j] # e.chk[j]}
-                    j0 == CHOOSE j \in bad : \A jj \in bad : j <= jj
+                    vec == e.m = "get_bits_unchecked" \/ (o.fam = "T" /\ e.m = "get_unchecked")
+                    \* one report for "the checked twin gave None" and one for any other disagreement
+                    NoneChk(j) == IF vec THEN e.chk[j] = <<NONE>> ELSE e.chk[j] = NONE
+                    classes == {NoneChk(j) : j \in bad}
+                    First(c) == CHOOSE j \in bad : NoneChk(j) = c /\ \A jj \in bad : NoneChk(jj) = c => j <= jj
                     tag == "unchecked." \o e.m
                 IN  IF illegal # {}
                     THEN ToolErr(e, "unchecked call outside its precondition") /\ Advance(ResOk(0, {}), objs)
-                    ELSE Advance(Merge(<<Res(IF bad = {} THEN << >>
-                                             ELSE <<Mis(e, o, tag, 0, j0, e.out[j0], {e.chk[j0]})>>,
+                    ELSE Advance(Merge(<<Res(SX!SetToSeq({Mis(e, o, tag, 0, First(c), e.out[First(c)], {e.chk[First(c)]}) : c \in classes}),
                                              Cardinality(bad), Len(e.out), {tag}), IdxRes(e)>>), objs)
 
 Mut ==
